@@ -21,14 +21,14 @@ BUDGET = {'quick': 6000, 'thorough': 160000}
 
 PROFILE = {
     'weights': {'app': 14, 'idg': 5, 'rmidg': 2, 'bl': 3, 'down': 3,
-                'rmsrv': 2, 'orphanbl': 3, 'orphanrm': 3},
-    'force': ['idg', 'orphanbl', 'orphanrm'],
+                'rmsrv': 3, 'orphanbl': 3, 'orphanrm': 3, 'clone': 5},
+    'force': ['idg', 'orphanbl', 'orphanrm', 'clone', 'rmsrv'],
     'groups': True,
     'group_bias': True,
 }
 
 
-E2_PROFILE = {'weights': {'app': 14, 'idg': 5, 'rmidg': 2, 'bl': 3, 'down': 3, 'rmsrv': 2, 'restart': 2, 'resize': 2}, 'force': ['idg']}
+E2_PROFILE = {'weights': {'app': 14, 'idg': 5, 'rmidg': 2, 'bl': 3, 'down': 3, 'rmsrv': 2, 'restart': 2, 'resize': 2, 'idgrestart': 4}, 'force': ['idg', 'idgrestart']}
 
 
 def strategy(tier):
